@@ -13,6 +13,7 @@ from . import verus as V
 from . import kani as K
 from . import lemma as L
 from . import registry as REG
+from . import witness as W
 from .rustsrc import ExtractError
 
 VERIF = os.path.dirname(os.path.dirname(os.path.abspath(__file__)))
@@ -214,6 +215,11 @@ def check(pid, tier, seed, only_report=None):
     finally:
         shutil.rmtree(work, ignore_errors=True)
 
+    if tier == "thorough" and os.environ.get("VERIF_NO_REPLAY") != "1":
+        bad = W.cross_check(REPO, seed)
+        backends["native_oracles"] = dict(tests=len(W.ALL_TESTS), failing=sorted(bad))
+        for t, w in bad.items():
+            tool_errors.append("[oracle] replay/witness.rs::%s fails on a tree where every obligation is discharged: %s" % (t, w[:300]))
     wall = time.time() - t0
     known = [k for k in _known() if k["property"] == pid]
     known_hit = []
@@ -238,6 +244,14 @@ def check(pid, tier, seed, only_report=None):
     os.makedirs(rpdir, exist_ok=True)
     for k, f in known_hit:
         print("KNOWN-FINDING: property=%s %s — %s" % (pid, f["obligation"], k["what"]))
+    # witness search: Verus gives no model; try to find a concrete failing input natively for leaf obligations
+    wtests = sorted(set(t for t in (W.test_for(f["obligation"]) for f in new_viol if f["obligation"].startswith("V:")) if t))
+    wfound = W.search(REPO, wtests, seed) if (wtests and os.environ.get("VERIF_NO_REPLAY") != "1") else {}
+    for f in new_viol:
+        t_ = W.test_for(f["obligation"]) if f["obligation"].startswith("V:") else None
+        if t_ and wfound.get(t_):
+            f["cex"] = "native witness search (replay/witness.rs::%s, seed %d) against the real code:\n%s" % (t_, seed, wfound[t_])
+            f["cex_native"] = True
     for f in new_viol:
         if only_report and f["obligation"] != only_report:
             continue
